@@ -5,8 +5,7 @@ carries: they get their `Spec` from plain writer lemmas.
 -/
 namespace Circus.Core
 
-structure LeafX (I : State → Prop) : Prop extends Leaf I where
-  emitRep : ∀ c i a b d, Pres I (emitRep c i a b d)
+structure LeafY (I : State → Prop) : Prop extends Leaf I where
   setSlot : ∀ v, Pres I (setSlot v)
   pushTop : ∀ t, Pres I (pushTop t)
   finishTop : ∀ t v, Pres I (finishTop t v)
@@ -14,8 +13,12 @@ structure LeafX (I : State → Prop) : Prop extends Leaf I where
   enqueue : ∀ r, Pres I (enqueue r)
   dequeue : Pres I dequeue
 
-attribute [aesop safe apply (rule_sets := [Pres])] LeafX.emitRep LeafX.setSlot LeafX.pushTop LeafX.finishTop LeafX.topAddCb
-  LeafX.enqueue LeafX.dequeue
+/-- … and the reply writer, for invariants that do not look at replies either -/
+structure LeafX (I : State → Prop) : Prop extends LeafY I where
+  emitRep : ∀ c i a b d, Pres I (emitRep c i a b d)
+
+attribute [aesop safe apply (rule_sets := [Pres])] LeafX.emitRep LeafY.setSlot LeafY.pushTop LeafY.finishTop LeafY.topAddCb
+  LeafY.enqueue LeafY.dequeue LeafX.toLeafY LeafY.toLeaf
 
 section
 variable {I : State → Prop}
@@ -25,15 +28,16 @@ macro "presx" : tactic =>
 
 theorem runTopCb_pres (X : LeafX I) (v : Val) (cb : TopCb) : Pres I (runTopCb v cb) := by
   have L := X.toLeaf
+  have hsr := sendReply_pres L X.emitRep
   cases cb <;> simp only [runTopCb] <;> presx
 
-theorem newTop_pres (X : LeafX I) (cbs : List TopCb) : Pres I (newTop cbs) := by
+theorem newTop_pres (X : LeafY I) (cbs : List TopCb) : Pres I (newTop cbs) := by
   have L := X.toLeaf
   unfold newTop; presx
 
-theorem deliverCbs_pres (X : LeafX I) (armed : Bool) (v : Val) (cbs : List TopCb) : Pres I (deliverCbs armed v cbs) := by
+theorem deliverCbs_pres (X : LeafY I) (armed : Bool) (v : Val) (cbs : List TopCb) : Pres I (deliverCbs armed v cbs) := by
   have L := X.toLeaf
-  have h := runTopCb_pres X
+  have h : Pres I (runTopCb v TopCb.release) := by simp only [runTopCb]; exact X.setSlot _
   induction cbs with
   | nil => unfold deliverCbs; presx
   | cons cb rest ih =>
@@ -41,24 +45,24 @@ theorem deliverCbs_pres (X : LeafX I) (armed : Bool) (v : Val) (cbs : List TopCb
     aesop (add safe apply h, safe apply ih) (rule_sets := [Pres])
       (config := { terminal := true, useDefaultSimpSet := false, useSimpAll := false, maxRuleApplications := 3000 })
 
-theorem deliverTop_pres (X : LeafX I) (tid : Nat) (v : Val) : Pres I (deliverTop tid v) := by
+theorem deliverTop_pres (X : LeafY I) (tid : Nat) (v : Val) : Pres I (deliverTop tid v) := by
   have L := X.toLeaf
   have h := deliverCbs_pres X
   unfold deliverTop
   aesop (add safe apply h) (rule_sets := [Pres]) (config := { terminal := true, useDefaultSimpSet := false, useSimpAll := false, maxRuleApplications := 3000 })
 
-theorem addDoneCallback_pres (X : LeafX I) (tid : Nat) (cb : TopCb) : Pres I (addDoneCallback tid cb) := by
+theorem addDoneCallback_pres (X : LeafY I) (tid : Nat) (cb : TopCb) : Pres I (addDoneCallback tid cb) := by
   have L := X.toLeaf
   unfold addDoneCallback; presx
 
-theorem syncCoroutine_presx (X : LeafX I) (he : ∀ n t, Pres I (exec n t)) (name : String) (c : Call) (extra : List TopCb) :
+theorem syncCoroutine_presx (X : LeafY I) (he : ∀ n t, Pres I (exec n t)) (name : String) (c : Call) (extra : List TopCb) :
     Pres I (syncCoroutine name c extra) := by
   have L := X.toLeaf
   have h := newTop_pres X
   unfold syncCoroutine
   aesop (add safe apply h, safe apply he) (rule_sets := [Pres]) (config := { terminal := true, useDefaultSimpSet := false, useSimpAll := false, maxRuleApplications := 3000 })
 
-theorem syncPlain_presx (X : LeafX I) {α : Type} (name : String) (body : M (R α)) (hb : Pres I body) :
+theorem syncPlain_presx (X : LeafY I) {α : Type} (name : String) (body : M (R α)) (hb : Pres I body) :
     Pres I (syncPlain name body) := by
   have L := X.toLeaf
   unfold syncPlain
@@ -90,16 +94,20 @@ theorem settleStep_pres (X : LeafX I) (he : ∀ n t, Pres I (exec n t)) (hq : Pr
   unfold settleStep
   aesop (add safe apply h) (rule_sets := [Pres]) (config := { terminal := true, useDefaultSimpSet := false, useSimpAll := false, maxRuleApplications := 3000 })
 
-/-- slot-insensitive invariants: writer lemmas are enough -/
-theorem Spec.ofLeafX (X : LeafX I) : Spec I where
+/-- slot-insensitive invariants: writer lemmas are enough (everything up to, but not including,
+    the reply path and the event loop) -/
+theorem SpecCore.ofLeafY (X : LeafY I) : SpecCore I where
   toLeaf := X.toLeaf
-  emitRep := X.emitRep
   deliverTop := deliverTop_pres X
   newTopNR := fun cbs _ => newTop_pres X cbs
   addDone := fun tid cb _ => addDoneCallback_pres X tid cb
   syncCo := fun he name c => syncCoroutine_presx X he name c []
   syncSetOpt := fun u k v b => syncPlain_presx X _ _ (setOptBody_pres X.toLeaf u k v b)
   syncAdd := fun p => syncPlain_presx X _ _ (addCore_pres X.toLeaf p)
+
+theorem Spec.ofLeafX (X : LeafX I) : Spec I where
+  toSpecCore := SpecCore.ofLeafY X.toLeafY
+  emitRep := X.emitRep
   settleStep := fun he hq => settleStep_pres X he hq
 
 end
